@@ -771,7 +771,7 @@ fn main() {
     let mut rng = Rng::new(seed.wrapping_mul(0xC13).wrapping_add(13));
     // exhaustive scopes (lengths): lag ops / pct alphabet / fills / clip
     let (lf, lfp, le, lc) = if thorough { (7, 5, 8, 5) } else { (6, 4, 6, 4) };
-    let (lo, lop, leo, lco) = if thorough { (6, 4, 7, 4) } else { (4, 3, 5, 3) };
+    let (lo, lop, leo, lco) = if thorough { (6, 4, 7, 4) } else { (5, 3, 5, 3) };
     lag_family::<f64>(&mut cx, lf, lfp);
     lag_family::<Option<f64>>(&mut cx, lo, lop);
     lag_family::<Option<i32>>(&mut cx, lo, lop);
